@@ -492,3 +492,41 @@ def run_parallel(which, reqs, profile, nproc, shard=20000):
         return []
     with mp.Pool(min(nproc, len(shards))) as pool:
         return pool.map(eval_shard, shards)
+
+
+# ---------------------------------------------------------------------------------------------------
+# Miri (undefined-behaviour interpreter) on the same kernel binary: thorough tier only
+# ---------------------------------------------------------------------------------------------------
+
+def run_miri(which, reqs, timeout=1500):
+    """Returns {"ran": n, "ub": [text], "mismatch": [sig], "error": str|None}. Overflow panics under Miri's dev profile are
+    reported as mismatches by the caller's policy (advisory); Undefined Behaviour aborts the interpreter and is a violation."""
+    import os
+    from common import VERIF, BUILD, base_env
+    enc, chk = (enc_c04, check_c04) if which == "C04" else (enc_c05, check_c05)
+    env = base_env()
+    env["CARGO_TARGET_DIR"] = os.path.join(BUILD, "kernels-miri")
+    env["MIRIFLAGS"] = "-Zmiri-disable-isolation"
+    lines = [enc(r) for r in reqs]
+    try:
+        p = subprocess.run(["cargo", "+nightly", "miri", "run", "--offline", "--quiet"], cwd=os.path.join(VERIF, "kernels"), env=env,
+                           input="\n".join(lines) + "\n", stdout=subprocess.PIPE, stderr=subprocess.PIPE, text=True, timeout=timeout)
+    except subprocess.TimeoutExpired:
+        return {"ran": 0, "ub": [], "mismatch": [], "error": "miri watchdog"}
+    out = [l for l in p.stdout.split("\n") if l]
+    res = {"ran": len(out), "ub": [], "mismatch": [], "error": None}
+    if "Undefined Behavior" in p.stderr:
+        res["ub"].append(p.stderr[p.stderr.index("Undefined Behavior") - 10:][:400])
+    elif p.returncode != 0 and len(out) < len(lines):
+        res["error"] = "miri exited %s after %d of %d replies: %s" % (p.returncode, len(out), len(lines), p.stderr.strip()[-200:])
+    for r, o in zip(reqs, out):
+        sig = chk(r, o.split("\t"))
+        if sig is not None:
+            res["mismatch"].append(sig)
+    return res
+
+
+def miri_parallel(which, reqs, nproc=8):
+    shards = [reqs[i::nproc] for i in range(nproc)]
+    with mp.Pool(nproc) as pool:
+        return pool.starmap(run_miri, [(which, s) for s in shards if s])
